@@ -121,19 +121,20 @@ Definition gen_tc_sort_stable : bool := true.
    T a map type -> concat_maps (Model/Concat.v concat_items, first branch); T an interface type without a
    registered function -> concat_items_any; any other T -> concat_typed; an error is handed on; the
    invalid Value (every chunk nil) and the nil result of a function registered for an interface
-   type (F-C14b) are the zero value of T. *)
+   type (F-C14b) are the zero value of T.  The names of the locals do not matter: the parameter is $p1, the
+   locals $1, $2, ... in the order of their declaration; a tagless switch is the if / else-if chain. *)
 Definition gen_concat_items_shape : list (string * string) :=
-  [ (""%string, "typ:=generic.TypeOf[T]()"%string);
-    (""%string, "v:=reflect.ValueOf(items)"%string);
-    (""%string, "var cv reflect.Value"%string);
-    (""%string, "var err error"%string);
-    ("if typ.Kind()==reflect.Map"%string, "cv,err=concatMaps(v)"%string);
-    ("if typ.Kind()==reflect.Interface&&GetConcatFunc(typ)==nil"%string, "cv,err=concatInterfaces(v)"%string);
-    ("else"%string, "cv,err=concatSliceValue(v)"%string);
-    ("if err!=nil"%string, "var t T; return t,err"%string);
-    ("if !cv.IsValid()"%string, "var t T; return t,nil"%string);
-    ("if cv.Kind()==reflect.Interface&&cv.IsNil()"%string, "var t T; return t,nil"%string);
-    (""%string, "return cv.Interface().(T),nil"%string) ].
+  [ (""%string, "$1:=generic.TypeOf[T]()"%string);
+    (""%string, "$2:=reflect.ValueOf($p1)"%string);
+    (""%string, "var $3 reflect.Value"%string);
+    (""%string, "var $4 error"%string);
+    ("if $1.Kind()==reflect.Map"%string, "$3,$4=concatMaps($2)"%string);
+    ("if $1.Kind()==reflect.Interface&&GetConcatFunc($1)==nil"%string, "$3,$4=concatInterfaces($2)"%string);
+    ("else"%string, "$3,$4=concatSliceValue($2)"%string);
+    ("if $4!=nil"%string, "var $5 T; return $5,$4"%string);
+    ("if !$3.IsValid()"%string, "var $5 T; return $5,nil"%string);
+    ("if $3.Kind()==reflect.Interface&&$3.IsNil()"%string, "var $5 T; return $5,nil"%string);
+    (""%string, "return $3.Interface().(T),nil"%string) ].
 
 (* the stream entry points compose.concatStreamReader[T] (compose/stream_concat.go) and
    schema.ConcatMessageStream, and schema.concatMessageArray (the concat function registered for []*Message:
